@@ -199,6 +199,9 @@ class ChainWorld(World):
             self.policy[self.label_name(dev['label'])] = 'lost' if k == 'missing-cert' else 'nack'
         elif k == 'transient-loss':
             self.policy[self.label_name(dev['label'])] = ['lost', dev.get('n', 1)]
+        elif k == 'wrong-issuer-cert':
+            # the certificate of `label` is (validly) signed by a key the schema does not allow for it
+            self.store[self.label_name(dev['label'])] = self.reissue(dev['label'], signer_label=dev['by_label'])
         elif k == 'loop':
             # the certificate of `label` now claims to be signed by a certificate that is signed by `label`
             a, b = dev['label'], dev['other']
@@ -272,6 +275,11 @@ class ChainWorld(World):
         cert = self.store.get(key)
         if cert is None:
             self.stats['fault.cert_absent'] += 1
+            return
+        if idx >= 12:
+            # a certificate loop makes a schema-less cascade checker fetch for ever; the network stops answering
+            # (the statement only demands that such a chain is not accepted)
+            self.stats['probe.fetch_cap_reached'] += 1
             return
         self.after(self.scenario.get('fetch_delay_us', 100), self.face.deliver, cert)
 
@@ -514,9 +522,18 @@ def generate(rng, seed, tier='quick'):
     x = rng.random()
     chain_labels = [f'{lvl}:{members[lvl][0]}' for lvl in LEVELS[depth]]
     if x < 0.55 and chain_labels:
-        kind = rng.choice(['forged-cert', 'substituted-key', 'missing-cert', 'nack-cert', 'transient-loss', 'loop'])
+        kind = rng.choice(['forged-cert', 'substituted-key', 'missing-cert', 'nack-cert', 'transient-loss', 'loop', 'wrong-issuer-cert',
+                           'wrong-issuer-cert'])
         label = rng.choice(chain_labels)
         deviation = {'kind': kind, 'label': label}
+        if kind == 'wrong-issuer-cert':
+            idx = chain_labels.index(label)
+            parent = 'root' if idx == 0 else chain_labels[idx - 1]
+            cands = [lb for lb in ['root'] + labels if lb not in (label, parent)]
+            if cands:
+                deviation['by_label'] = rng.choice(cands)
+            else:
+                deviation = {'kind': 'missing-cert', 'label': label}
         if kind == 'forged-cert':
             deviation['where'] = rng.choice(['content', 'siginfo', 'sigvalue'])
         if kind == 'substituted-key':
@@ -564,7 +581,7 @@ def generate(rng, seed, tier='quick'):
                 pkt['signed_by'] = rng.choice(choices)
             elif z < 0.26:
                 pkt['name_user'] = 'mallory'
-            if _ > 0 and 'signed_by' not in pkt and rng.random() < 0.15 and depth >= 2:
+            if (_ > 0 or depth == 1) and 'signed_by' not in pkt and rng.random() < 0.15:
                 pkt['alt_locator'] = True
                 pkt['user'] = prev_user
             prev_user = pkt['user']
